@@ -237,6 +237,22 @@ Definition st_bound_by_other (who : Z) (c : ctx) : outc :=
     end
   else Go c.
 
+(* ---- the stages that depend on the variant of the controller ----
+   [fx] = "re-check the same-node condition right before the eviction call" (the repair proposed in
+   findings/C17-same-node-after-pod-replaced.md). [recheck_same_node] below says which variant /repo
+   currently is; everything from [st_evict] up to [run] takes the variant as its first argument. *)
+Section Variant.
+Variable fx : bool.
+
+(* the re-check: abortJobIfReserveOnSameNode against the pod that is about to be evicted *)
+Definition st_recheck (p : pod) (c : ctx) : outc :=
+  if fx && rref (cj c) then
+    match cr c with
+    | None => Stop c
+    | Some r => if negb (rnode r =? 0) && (rnode r =? pnode p) then abort c RS_FORBIDDEN else Go c
+    end
+  else Go c.
+
 (* evictPod: [Go] = eviction complete, [Stop] = everything else *)
 Definition st_evict (e : renv) (c : ctx) : outc :=
   if cEv (cj c) =? C_TRUE then Go c
@@ -251,10 +267,11 @@ Definition st_evict (e : renv) (c : ctx) : outc :=
     else if cEv (cj c) =? C_FALSE then Stop c          (* reason Evicting: wait *)
     else
       andthen (st_bound_by_other 0 c) (fun c =>
+      andthen (match epod e with Some p => st_recheck p c | None => Go c end) (fun c =>
         let '(fail, c') := pop c in
         let c'' := with_eff c' (mkEff EEvict (negb fail) (stamp_of (cr c) (epod e))) in
         if fail then Stop c''
-        else halt (updcond cEv set_cEv C_FALSE SS_EV RS_EVICTING c'')).
+        else halt (updcond cEv set_cEv C_FALSE SS_EV RS_EVICTING c''))).
 
 (* evictPodDirectly *)
 Definition st_direct (e : renv) (c : ctx) : outc :=
@@ -277,14 +294,16 @@ Definition st_create (e : renv) (c : ctx) : outc :=
         halt (wjob c'' (set_rref (cj c'') true))
   end.
 
-(* setReservationOrder *)
+(* setReservationOrder. An unlabelled reservation of the harness has a nil label map: the code
+   then fills a fresh map it never attaches to the object, so the Update it issues changes
+   nothing (the write still happens, on every reconcile). *)
 Definition st_order (c : ctx) : outc :=
   match cr c with
   | None => Stop c
   | Some r =>
       if rlabel r then Go c
       else let '(fail, c') := pop c in
-           if fail then Stop c' else Go (with_res c' (Some (set_rlabel r true)))
+           if fail then Stop c' else Go c'
   end.
 
 (* syncReservationScheduleFailed *)
@@ -397,6 +416,12 @@ Fixpoint run (s : state) (ops : list op) : list (state * list effect) :=
   | [] => []
   | o :: t => let r := step s o in r :: run (fst r) t
   end.
+
+End Variant.
+
+(* which variant /repo is: false = the same-node check is made once and cached in the job status
+   (current code, known finding sig 1); flip to true once the repair is committed *)
+Definition recheck_same_node : bool := false.
 
 (* the job as created: no status except possibly phase Pending *)
 Definition init_job (direct paused : bool) (ttl : Z) (pvalid : bool) (initphase : Z) (rref0 : bool) (createdby : bool) : job :=
